@@ -39,7 +39,8 @@ func VerifC13_X_force_execution() {
 	mk := func() *model.Target {
 		t := fileTarget("t", "build-t", "out.txt")
 		if noCache {
-			t.Tags = []string{model.TagNoCache}
+			// the tag list is not sorted: no-cache may stand anywhere in it
+			t.Tags = [][]string{{model.TagNoCache}, {"slow", model.TagNoCache}, {model.TagNoCache, "docker", "a"}}[sym.Choice("no_cache_tag_position", 3)]
 		}
 		return t
 	}
